@@ -172,6 +172,17 @@ def Config.history (c : Config) : List Rec := recsFrom 0 c.threads
 /-- the claimed linearization: the hook log in chronological order -/
 def Config.order (c : Config) : List Lin := c.log.reverse
 
+/-- where the model appends to the hook log (compared with `Gen.hooks` by
+`Props.hooks_at_linearization_points`) -/
+def linPoints : List Hook := [
+  ⟨.fetch, 1, .lookup, [(.access, .shared)]⟩,
+  ⟨.fetch, 2, .splice, [(.access, .shared), (.lru, .exclusive)]⟩,
+  ⟨.store, 7, .body, [(.access, .exclusive)]⟩,
+  ⟨.rise, 3, .body, [(.access, .exclusive)]⟩,
+  ⟨.remove, 6, .body, [(.access, .exclusive)]⟩,
+  ⟨.clear, 4, .body, [(.access, .exclusive)]⟩,
+  ⟨.stats, 5, .readStats, [(.access, .shared)]⟩]
+
 def Thread.finished (th : Thread) : Bool := th.cur.isNone && th.todo.isEmpty
 
 def Config.allDone (c : Config) : Bool := c.threads.all Thread.finished
